@@ -305,6 +305,8 @@ class Harness(object):
             m = mm.LoggingMonitor(arg.get('interval', 1), filename=self.run.fs.path(arg.get('file', 'log.txt')))
         elif kind == 'Null': m = mm.Null()
         else: raise HarnessError("monitor kind %r" % kind)
+        for i in range(arg.get('prefill', 0)):      # a monitor that already holds foreign records
+            m([float(i)] * self.plan['dim'], 1000.0 + i)
         return m
 
     def _step_kw(self, op):
